@@ -178,8 +178,10 @@ def parse_spec(path):
             cur.ghostparam = rest
         elif d == "attr":
             cur.attrs.append(rest)
+        elif d == "iter":
+            cur_loop["iter"] = rest
         elif d == "loop":
-            cur_loop = cur.loops.setdefault(int(rest), {"invariant": [], "decreases": None, "ensures": [], "except": []})
+            cur_loop = cur.loops.setdefault(int(rest), {"invariant": [], "decreases": None, "ensures": [], "except": [], "iter": None})
             cur_closure = None
         elif d == "closure":
             cur_closure = cur.closures.setdefault(int(rest), {"params": None, "returns": None, "ensures": [], "requires": []})
@@ -531,6 +533,14 @@ class Unit:
                 continue
             pos = n["body_open"]
             lt = []
+            if ls.get("iter"):
+                # E5: name the ghost iterator of a `for` loop (`for x in it: expr`), Verus-only syntax
+                hdr = src.text(n["span"][0], n["body_open"])
+                mi = re.search(r"\sin\s", hdr)
+                if n["kind"] != "for" or not mi:
+                    raise Undecided(f"iter naming on loop {n['ord']} of {key}: not a for loop")
+                ipos = n["span"][0] + mi.end()
+                eds.append((ipos, ipos, ls["iter"] + ": ", None))
             inv = self._clauses(ls["invariant"])
             exc = self._clauses(ls["except"])
             if exc:
